@@ -1117,7 +1117,7 @@ def weave(unit_path):
             end_line = len(out.lines)
             info['rules'] |= fw.rules
             info['lost'] += fw.lost
-            if d == 'stub':
+            if d == 'stub' or any('external_body' in a_ for a_ in attrs):
                 info['stubs'].append(dict(qual=qual, file=rel, line=first_line))
             else:
                 info['functions'].append(dict(qual=qual, file=rel, line=first_line, out_start=start_line, out_end=end_line,
